@@ -727,6 +727,15 @@ impl Xot {
                             // a namespace declaration is an attribute: its value
                             // can contain references and is normalized
                             let uri = parse_attribute(value.as_str().into(), value.start())?;
+                            // Namespaces in XML 1.0, "No Prefix Undeclaring": only
+                            // the default namespace can be undeclared
+                            if uri.is_empty() {
+                                let pos = tokenizer.stream().gen_text_pos_from(prefix.start());
+                                return Err(ParseError::XmlParser(
+                                    xmlparser::Error::UnknownToken(pos),
+                                    prefix.start(),
+                                ));
+                            }
                             let span = Span::from_prefix_name(prefix, local);
                             builder.prefix(local.as_str(), &uri, span, self)?;
                         } else if prefix.is_empty() && local.as_str() == "xmlns" {
@@ -834,6 +843,15 @@ impl Xot {
                                     ));
                                 }
                             }
+                        }
+                        // Namespaces in XML 1.0: no colon in a processing instruction target
+                        if target.as_str().contains(':') {
+                            let position = target.start() - 2;
+                            let pos = tokenizer.stream().gen_text_pos_from(position);
+                            return Err(ParseError::XmlParser(
+                                xmlparser::Error::UnknownToken(pos),
+                                position,
+                            ));
                         }
                         // PI ::= '<?' PITarget (S (Char* - (Char* '?>' Char*)))? '?>'
                         // xmlparser does not insist on the white space between
